@@ -1,6 +1,9 @@
 from hdr_common import *
 CLAIM = ("Headers failing their own integrity data are never returned: for arbitrary header bytes (lengths, checksum, level symbolic) the real "
-         "level decoders / extended-header walker / final checks succeed only if the independently recomputed integrity predicate holds.")
-ASSUMPTIONS = ["decomposed along lha_file_header.c's own functions (level decoders, extended-header walk, post-processing tail); "
-               "the whole-parser composition is exercised in the thorough tier for concrete layouts"]
-HARNESSES = [l01(40)]
+         "level decoders, the level-1 chain reader, the extended-header walker and the final checks of lha_file_header_read succeed only if the "
+         "independently recomputed integrity predicate holds (byte sum, length >= level minimum, all bytes present, name fits, extended-header sizes in "
+         "range, common CRC matches, level <= 3, file has a name / directory a path); the basic reader latches end-of-archive after the first failure.")
+ASSUMPTIONS = ["decomposed along lha_file_header.c's own functions (level decoders, extended-header walk, post-processing tail)",
+               "the property's 'all 255 substitutions at every position' is subsumed: the header bytes are fully symbolic"]
+HARNESSES = [l01(40), l23(2), l23(3), l1ext(13), walk(16), tail(3), ext(0x00, 5)] + [
+    l01(64, timeout=1800, tier="thorough"), l1ext(24, timeout=1800, tier="thorough"), walk(24, timeout=1800, tier="thorough")]
